@@ -137,7 +137,7 @@ def gen_value(rng, mx, count, force_bad=None, scalar_only=False):
     """returns (flavour, value object, list of python ints broadcast to `count`)"""
     bad = rng.random() < 0.2 if force_bad is None else force_bad
     flavour = rng.choice(["int", "npscalar"] if scalar_only else ["int", "bool", "list", "nparr", "npscalar", "arr1"])
-    if flavour == "bool" and (mx != 1 or bad):
+    if flavour == "bool" and bad:
         flavour = "int"
 
     def one():
@@ -153,7 +153,11 @@ def gen_value(rng, mx, count, force_bad=None, scalar_only=False):
         v = badv() if bad else one()
         return flavour, v, [v] * count
     if flavour == "bool":
-        v = bool(one())
+        # booleans are the in-range values 0 and 1 of every field, also of the multi-bit ones
+        if count and rng.random() < 0.6:
+            bs = [rng.random() < 0.5 for _ in range(count)]
+            return flavour, np.array(bs, dtype=bool), [int(b) for b in bs]
+        v = rng.random() < 0.5
         return flavour, np.array([v] * max(count, 1), dtype=bool)[:count] if count else v, [int(v)] * count
     if flavour == "npscalar":
         dt = rng.choice(INT_DTYPES)
@@ -362,6 +366,37 @@ def alias_and_size_layer(ck, n_cases):
             got = [(b >> lsb) & mx for b in rec.array[cname].tolist()]
             ck.fail(f"{name}: after assigning a view of the same field ({how}) the field reads {got[:8]}, the values assigned were {vals[:8]} "
                     f"(or other bits changed)", inp)
+    # the record's array is replaced (resize) between a first use of the field and the assignment: the assignment must
+    # address the record's current array
+    for ci in range(n_cases):
+        fmt = ck.rng.choice(fmts)
+        cname, name, mask = ck.rng.choice(subfields(fmt))
+        mx = mask >> lsb_of(mask)
+        n = ck.rng.choice([1, 4, 9])
+        rec = new_record(fmt, n, ck.rng)
+        off = rec.array.dtype.fields[cname][1]
+        size = rec.array.dtype.itemsize
+        m = ck.rng.choice([n + 3, max(1, n - 1), 2 * n, n])
+        inp = {"kind": "resize", "fmt": fmt, "field": name, "n": n, "resized_to": m}
+        ck.case(("resize", fmt, name, n, m, rec.array.tobytes()), nontrivial=True)
+        ck.count("resize_between_use_and_assignment")
+        try:
+            first = np.array(rec[name]).tolist()
+            _ = rec[name] < 1
+            rec.resize(m)
+            before2 = rec.array.tobytes()
+            vals = [ck.rng.randrange(0, mx + 1) for _ in range(m)]
+            if ck.rng.random() < 0.5:
+                rec[name][:] = np.array(vals)
+            else:
+                rec[name] = np.array(vals)
+        except Exception as e:
+            ck.fail(f"{name}: assignment after resizing the record raised {type(e).__name__}: {e}", inp)
+            continue
+        exp = expected_image(before2, size, off, mask, list(range(m)), vals)
+        if rec.array.tobytes() != exp:
+            got = [(b >> lsb_of(mask)) & mx for b in rec.array[cname].tolist()]
+            ck.fail(f"{name}: used, then the record resized {n} -> {m}, then assigned {vals[:6]}: the record's field reads {got[:6]} (or other bits changed)", inp)
     # long arrays: 70000 points, one out-of-range value late in the array -> OverflowError and nothing modified
     for ci in range(2 if n_cases <= 40 else 8):
         fmt = ck.rng.choice(fmts)
